@@ -32,6 +32,7 @@ var multiViaHTTP bool
 func runMulti(rt *rapid.T, st *stats.Collector, focus []string, gapCheck bool) (*World, *multiSummary) {
 	w := NewWorld(rt, st, env.Options{}, focus...)
 	w.ViaHTTP = multiViaHTTP
+	w.Narrow = rapid.Bool().Draw(rt, "narrowPool")
 	sum := &multiSummary{}
 	fs := GenFeatures(rt)
 	w.AddLedger("s1", "shared", fs)
@@ -114,9 +115,11 @@ func runMulti(rt *rapid.T, st *stats.Collector, focus []string, gapCheck bool) (
 				out = w.CreateTx(l, r)
 			}
 			if out.Kind != want {
-				code := "C25"
+				// the model is per ledger: an outcome it does not predict is a request recorded differently from what was
+				// submitted (C25) or a ledger whose answers depend on its neighbours (C19)
+				code := "C25|C19"
 				if want == ErrReferenceConflict || out.Kind == ErrReferenceConflict {
-					code = "C14"
+					code = "C14|C19"
 				}
 				w.V(code, "ledger %s: create %s: outcome %q (%v), the model expects %q\n%s", l.Name, r.describe(), out.Kind, out.Err, want, w.allHistories())
 			}
